@@ -4,7 +4,7 @@
                 by the real filter_citations (ids of the returned objects).
    kind "doc" : the projected result of get_citations on a document, and the merge histories
                 (result extended with extracted reference citations, filtered once / twice). *)
-EXTENDS Filter, Json, IOUtils
+EXTENDS Filter, Json, IOUtils, Hits
 Traces == JsonDeserialize(IOEnv.TRACE_FILE)
 NT == Len(Traces)
 VARIABLES tid, bucket
@@ -19,8 +19,9 @@ Ids(r) == [k \in DOMAIN r |-> r[k].id]
 Spans(r) == [k \in DOMAIN r |-> <<r[k].s, r[k].e, r[k].fs, r[k].fe, r[k].kind>>]
 ById(l, ids) == [k \in DOMAIN ids |-> (CHOOSE c \in {l[j] : j \in DOMAIN l} : c.id = ids[k])]
 
-Clauses == {"C04.noraise", "C03.order", "C03.nooverlap", "C03.keepsnonref", "C03.idempotent",
-            "C03.merge.order", "C03.merge.nooverlap", "C03.merge.keepsnonref", "C03.merge.idempotent"}
+ClauseSeq == <<"C04.noraise", "C03.order", "C03.nooverlap", "C03.keepsnonref", "C03.idempotent", "C03.merge.order", "C03.merge.nooverlap", "C03.merge.keepsnonref", "C03.merge.idempotent">>
+Clauses == {ClauseSeq[ci] : ci \in DOMAIN ClauseSeq}
+ASSUME PrintT(<<"CLAUSES", ToJson(ClauseSeq)>>)
 Holds(cl, t) ==
   LET tr == T(t) IN
   IF tr.raised # "" THEN cl # "C04.noraise"
@@ -46,7 +47,24 @@ Holds(cl, t) ==
 TInit == tid = 0 /\ bucket \in 0..(NB - 1)
 TNext == tid = 0 /\ (\E t \in {x \in 1..NT : x % NB = bucket} : tid' = t) /\ UNCHANGED bucket
 TSpec == TInit /\ [][TNext]_<<tid, bucket>>
-Judge == tid # 0 => \A cl \in Clauses : Holds(cl, tid) \/ PrintT(<<"FAIL", tid, cl>>)
+Exercised(cl, t) ==
+  LET tr == T(t) IN
+  IF cl = "C04.noraise" THEN TRUE
+  ELSE IF tr.raised # "" THEN FALSE
+  ELSE IF tr.kind = "list" THEN
+    CASE cl = "C03.order"       -> Len(tr.once) >= 2
+      [] cl \in {"C03.nooverlap", "C03.idempotent"} -> Len(tr.once) < Len(tr.l) /\ Len(tr.once) >= 1    \* something had to go
+      [] cl = "C03.keepsnonref" -> Len(tr.once) < Len(tr.l) /\ \E k \in DOMAIN tr.l : tr.l[k].kind # "ref"
+      [] OTHER -> FALSE
+  ELSE
+    LET added(m) == \E k \in DOMAIN tr.merges[m].ext : tr.merges[m].ext[k].ref IN
+    CASE cl \in {"C03.order", "C03.nooverlap"} -> Len(tr.cites) >= 2
+      [] cl \in {"C03.merge.order", "C03.merge.keepsnonref"} -> \E m \in DOMAIN tr.merges : added(m)
+      [] cl \in {"C03.merge.nooverlap", "C03.merge.idempotent"} ->        \* a merge in which the filter had to drop something
+            \E m \in DOMAIN tr.merges : added(m) /\ Len(tr.merges[m].once) < Len(tr.merges[m].ext)
+      [] OTHER -> FALSE
+Judge == tid # 0 => (/\ \A cl \in Clauses : Holds(cl, tid) \/ PrintT(<<"FAIL", tid, cl>>)
+   /\ PrintT(<<"HIT", tid, Mask([ci \in DOMAIN ClauseSeq |-> Exercised(ClauseSeq[ci], tid)])>>))
 (* conformance: the model's filter reproduces the real one *)
 Conform == (tid # 0 /\ T(tid).raised = "") =>
    (IF T(tid).kind = "list"
